@@ -147,7 +147,7 @@ def structures(tier, seed):
 
 # ------------------------------------------------------------------------------------------------
 def scenario(s, w):
-    layout = make_layout(s["axes"])
+    layout = make_layout(s["axes"], s.get("dimnames"))
     axes = list(s["axes"])
     ns = {}
     for a in axes:
@@ -157,9 +157,9 @@ def scenario(s, w):
     for a in axes:
         for pos, d in layout[a].items():
             dims[d] = spec.len_pos(pos, ns[a]) if w.native else symx.mk_int(spec.len_pos(pos, zint(ns[a])))
-    ex = [f"e{k}" for k in range(s["extra"])]
-    for d in ex:
-        dims[d] = w.size(f"n_{d}", 1)
+    ex = [(s.get("extra_names") or [f"e{k}" for k in range(s["extra"])])[k] for k in range(s["extra"])]
+    for k, d in enumerate(ex):
+        dims[d] = w.size(f"n_e{k}", 1)
     cdefs = {d: (d,) for d in dims} if s["coords"] else {}
     if isinstance(s["coords"], list):
         cdefs = {d: (d,) for d in s["coords"]}
@@ -184,6 +184,10 @@ def scenario(s, w):
     if s["order"]:
         adims = [adims[k] for k in s["order"]]
     da = w.array("D", adims, ds, with_coords=s.get("input_coords", bool(s["coords"])))
+    if s.get("array_name"):
+        da._name = s["array_name"] if not w.native else None
+        if w.native:
+            da = da.rename(s["array_name"])
     ckw = {}
     if s.get("keep_coords") is not None:
         ckw["keep_coords"] = s["keep_coords"]
